@@ -1101,7 +1101,7 @@ class FnRewriter:
                     ce = k
                 self._closure_no += 1
                 n = self._closure_no
-                if overlay_piece and self.ov.get('closures_named'):
+                if overlay_piece:
                     # named closure anchor: `RECV.METHOD(|..| ..)` -- the callee's name and a per-name ordinal
                     pk = j - 1
                     while pk >= lo and toks[pk].kind in ('ws', 'comment'):
@@ -1117,7 +1117,9 @@ class FnRewriter:
                         cnt = self.__dict__.setdefault('_closure_by_callee', {})
                         cnt[callee] = cnt.get(callee, 0) + 1
                         key = (callee, cnt[callee])
-                        if key in self.ov['closures_named']:
+                        self.log.append({'rule': 'closure-map', 'fn': self.fnkey, 'line': self.sf.line_of(t.start),
+                                         'what': 'closure %d is `%s %d`' % (n, callee, cnt[callee])})
+                        if key in self.ov.get('closures_named', {}):
                             if n in self.ov['closures']:
                                 raise Undecided('%s: closure %d is annotated both by ordinal and as %s %d'
                                                 % (self.fnkey, n, callee, cnt[callee]))
